@@ -51,6 +51,21 @@ Definition spec_step (g : tcfg) (T : Z) (e : tevent) (t : ttable) : ttable :=
     | TUpd o n => forallb (fun c => tc_excl c || val_eqb (pget o (tc_name c)) (pget n (tc_name c))) (tg_cols g)
     | _ => false end in
   if unchanged then t else
+  let newflags :=
+    if tg_tracker g
+    then map (fun c => (tc_name c,
+               if kind =? OP_UPD then distinct (pget old (tc_name c)) (pget new (tc_name c)) else true)) (tnonpk g)
+    else [] in
+  let at_T r := (tr_tx r =? T) && same_pk g r cur in
+  if existsb at_T t then
+    (* a later event on the same row within the transaction: the object path rewrites the row of
+       this transaction: last state, coalesced operation type, flags OR-ed; nothing else changes *)
+    map (fun r => if at_T r
+                  then mktr T (tr_end r) (if kind =? OP_DEL then OP_DEL else OP_UPD)
+                            (map (fun c => (tc_name c, pget cur (tc_name c))) (tcols g))
+                            (map (fun cf => (fst cf, snd cf || mget r (fst cf))) newflags)
+                  else r) t
+  else
   let closed :=
     if tg_validity g
     then (* close the newest open row of the entity *)
